@@ -52,6 +52,12 @@ PROP = {  # subject keyword -> (property, failing input)
  'ExecComp partials leave the outputs untouched under force_alloc_complex': ('C31', 'setup(force_alloc_complex=True); run_model; set_val(c1.x); compute_totals: ExecComp output c1.y changes from [1.3325, 0.2125] to [0.4325, 0.7325]'),
  'a seeded sampling UniformGenerator draws from its own random stream': ('C23', 'two sampling.UniformGenerator objects with the same seed built before either is consumed (or np.random used in between) yield different cases'),
  'the file parser reads negative one-digit exponent floats': ('C29', "transfer_var(-2e-05) is written as '-2e-05' and read back as int -2 followed by the word 'e-05'"),
+ 'sign of the one-input Wendland RBF derivative': ('C28', "NearestNeighbor(interpolant_type='rbf', rbf_family=1), one input: linearize = +3.9553 where the difference quotient of predict is -3.9553"),
+ 'derivative of the sqrt(T^2 + 1) radial basis': ('C28', 'rbf_family=-3: linearize 700.25 instead of 54.70 (every dimension)'),
+ 'colored partials of JaxImplicitComponent': ('C34', "JaxImplicitComponent + declare_coloring(): 'coo_matrix' object is not subscriptable; coloured jacobian with input/state column blocks exchanged"),
+ 'ImplicitFuncComp computes jax partials in the direction its coloring': ('C34', "ImplicitFuncComp, jax coloring, setup(mode='rev') with a forward partial coloring: 'NoneType' object is not subscriptable"),
+ 'ImplicitFuncComp passes each state to the argument of the same name': ('C34', 'ImplicitFuncComp f(a, s1, s0): residuals -1, 46 instead of 1, 22 (states swapped)'),
+ 'jax components with an identically zero colored jacobian': ('C34', "jax component with identically zero jacobian and coloring: 'cannot reshape array of size 0 into shape (0)'"),
  'check_partials works on private copies': ('C13', "check_partials(method='fd', step=[0.5, 0.25]) on a dense partial: J_fd[0] is J_fd[1] (last step's values); constant val= partials overwritten by the approximation (second check reports zero error, compute_totals returns 2 instead of 5)"),
  'InterpND.gradient returns the derivative at the point': ('C16', 'akima 2-D table: interpolate(x); gradient(x) returns np.empty garbage for sub-dimensions ([[-2.127, 0.]] instead of [[-2.127, -2.983]]); gradient(x) after an in-place change of x returns the old gradient'),
  'check_partials reports every approximated nonzero': ('C13', 'diagonal-declared 4x4 with 8 off-diagonal nonzeros: rows/cols, coo, csc reported 2, csr none, diagonal=True raised KeyError'),
